@@ -85,6 +85,65 @@ class C02(PropertyCheck):
                     "for each case family, and within a geometry case every pixel centre and both sides of every "
                     "pixel boundary line; scales/origins/radii/angles are sampled, not enumerated",
     }
+    modelled_functions = [
+        "autoarray/geometry/geometry_util.py:central_pixel_coordinates_1d_from",
+        "autoarray/geometry/geometry_util.py:central_scaled_coordinate_1d_from",
+        "autoarray/geometry/geometry_util.py:pixel_coordinates_1d_from",
+        "autoarray/geometry/geometry_util.py:scaled_coordinates_1d_from",
+        "autoarray/geometry/geometry_util.py:convert_pixel_scales_2d",
+        "autoarray/geometry/geometry_util.py:central_pixel_coordinates_2d_from",
+        "autoarray/geometry/geometry_util.py:central_scaled_coordinate_2d_from",
+        "autoarray/geometry/geometry_util.py:pixel_coordinates_2d_from",
+        "autoarray/geometry/geometry_util.py:scaled_coordinates_2d_from",
+        "autoarray/geometry/geometry_util.py:grid_pixels_2d_slim_from",
+        "autoarray/geometry/geometry_util.py:grid_pixel_centres_2d_slim_from",
+        "autoarray/geometry/geometry_util.py:grid_pixel_indexes_2d_slim_from",
+        "autoarray/geometry/geometry_util.py:grid_scaled_2d_slim_from",
+        "autoarray/geometry/geometry_2d.py:Geometry2D.__init__",
+        "autoarray/geometry/geometry_2d.py:Geometry2D.shape_native_scaled",
+        "autoarray/geometry/geometry_2d.py:Geometry2D.scaled_maxima",
+        "autoarray/geometry/geometry_2d.py:Geometry2D.scaled_minima",
+        "autoarray/geometry/geometry_2d.py:Geometry2D.extent",
+        "autoarray/geometry/geometry_2d.py:Geometry2D.central_pixel_coordinates",
+        "autoarray/geometry/geometry_2d.py:Geometry2D.central_scaled_coordinates",
+        "autoarray/geometry/geometry_2d.py:Geometry2D.pixel_coordinates_2d_from",
+        "autoarray/geometry/geometry_2d.py:Geometry2D.scaled_coordinates_2d_from",
+        "autoarray/geometry/geometry_2d.py:Geometry2D.grid_pixels_2d_from",
+        "autoarray/geometry/geometry_2d.py:Geometry2D.grid_pixel_centres_2d_from",
+        "autoarray/geometry/geometry_2d.py:Geometry2D.grid_pixel_indexes_2d_from",
+        "autoarray/geometry/geometry_2d.py:Geometry2D.grid_scaled_2d_from",
+        "autoarray/geometry/geometry_1d.py:Geometry1D.__init__",
+        "autoarray/geometry/geometry_1d.py:Geometry1D.shape_slim_scaled",
+        "autoarray/geometry/geometry_1d.py:Geometry1D.scaled_maxima",
+        "autoarray/geometry/geometry_1d.py:Geometry1D.scaled_minima",
+        "autoarray/geometry/geometry_1d.py:Geometry1D.extent",
+        "autoarray/structures/grids/grid_2d_util.py:grid_2d_slim_via_mask_from",
+        "autoarray/structures/grids/grid_2d_util.py:grid_2d_slim_via_shape_native_from",
+        "autoarray/structures/grids/grid_1d_util.py:grid_1d_slim_via_mask_from",
+        "autoarray/structures/grids/grid_1d_util.py:grid_1d_slim_via_shape_slim_from",
+        "autoarray/structures/grids/uniform_2d.py:Grid2D.from_mask",
+        "autoarray/structures/grids/uniform_2d.py:Grid2D.uniform",
+        "autoarray/structures/grids/uniform_1d.py:Grid1D.from_mask",
+        "autoarray/structures/grids/uniform_1d.py:Grid1D.uniform",
+        "autoarray/mask/derive/grid_2d.py:DeriveGrid2D.all_false",
+        "autoarray/mask/derive/grid_2d.py:DeriveGrid2D.unmasked",
+        "autoarray/mask/mask_2d.py:Mask2D.geometry",
+        "autoarray/mask/mask_2d.py:Mask2D.all_false",
+        "autoarray/mask/mask_2d.py:Mask2D.circular",
+        "autoarray/mask/mask_2d.py:Mask2D.circular_annular",
+        "autoarray/mask/mask_2d.py:Mask2D.circular_anti_annular",
+        "autoarray/mask/mask_2d.py:Mask2D.elliptical",
+        "autoarray/mask/mask_2d.py:Mask2D.elliptical_annular",
+        "autoarray/mask/mask_1d.py:Mask1D.geometry",
+        "autoarray/mask/mask_2d_util.py:mask_2d_centres_from",
+        "autoarray/mask/mask_2d_util.py:total_pixels_2d_from",
+        "autoarray/mask/mask_2d_util.py:mask_2d_circular_from",
+        "autoarray/mask/mask_2d_util.py:mask_2d_circular_annular_from",
+        "autoarray/mask/mask_2d_util.py:mask_2d_circular_anti_annular_from",
+        "autoarray/mask/mask_2d_util.py:elliptical_radius_from",
+        "autoarray/mask/mask_2d_util.py:mask_2d_elliptical_from",
+        "autoarray/mask/mask_2d_util.py:mask_2d_elliptical_annular_from",
+    ]
     trusted_extra = [
         "IEEE-754 rounding of `coordinate/scale + centre + 0.5` (theorems are over exact ordered fields; "
         "decisions within 1e-9 of a pixel boundary / mask radius are excluded by the property and skipped)",
